@@ -102,6 +102,10 @@ structure Src (σ : Type) where
 
 def maxArrayLen : Nat := 1024 * 1024
 def maxBulkStringLen : Nat := 1024 * 1024 * 512
+/-- non-empty arrays nest at most this deep (codec.go `maxArrayDepth`) -/
+def maxArrayDepth : Nat := 32
+/-- longest line `ReadBytes` accepts, delimiter included (bufio.go `maxLineLen`) -/
+def maxLineLen : Nat := 64 * 1024
 
 /-- strip the trailing CR LF of a line returned by readSlice/readBytes -/
 def stripCRLF (line : Bytes) : Option Bytes :=
@@ -217,12 +221,14 @@ def streamSrc : Src Stream where
     | some (l, r) => if l.length ≤ s.size then some (l, { s with data := r }) else none
   readBytes s := match splitLF s.data with
     | none => none
-    | some (l, r) => some (l, { s with data := r })
+    | some (l, r) => if l.length ≤ maxLineLen then some (l, { s with data := r }) else none
   readFull n s := if n ≤ s.data.length then some (s.data.take n, { s with data := s.data.drop n }) else none
 
-/-- decode one message from a byte stream with reader buffer size `sz` -/
+/-- decode one message from a byte stream with reader buffer size `sz`; the fuel is the nesting
+limit of the decoder: `decode` at fuel `maxArrayDepth + 1` accepts exactly the nestings codec.go
+accepts (each non-empty array level consumes one unit) -/
 def decodeStream (sz : Nat) (data : Bytes) : Option (Resp × Bytes) :=
-  match decode streamSrc (data.length + 1) ⟨sz, data⟩ with
+  match decode streamSrc (maxArrayDepth + 1) ⟨sz, data⟩ with
   | none => none
   | some (v, s) => some (v, s.data)
 
@@ -303,8 +309,8 @@ def readBytesAux : Nat → Bytes → Reader → Option (Bytes × Reader)
   | 0, _, _ => none
   | fuel + 1, acc, r =>
     match readSlice' r with
-    | .line l r => some (acc ++ l, r)
-    | .full frag r => readBytesAux fuel (acc ++ frag) r
+    | .line l r => if (acc ++ l).length > maxLineLen then none else some (acc ++ l, r)
+    | .full frag r => if (acc ++ frag).length > maxLineLen then none else readBytesAux fuel (acc ++ frag) r
     | .fail => none
 
 def readBytes (r : Reader) : Option (Bytes × Reader) := readBytesAux (remaining r + 2) [] r
@@ -354,7 +360,7 @@ def decodeAllReader : Nat → Reader → List Resp × Bool
   | fuel + 1, r =>
     if r.err then ([], false) else
     if r.win.isEmpty && r.chunks.isEmpty then ([], true)
-    else match decode Reader.src (Reader.remaining r + 1) r with
+    else match decode Reader.src (maxArrayDepth + 1) r with
       | none => ([], false)
       | some (v, r) =>
         let (vs, ok) := decodeAllReader fuel r
